@@ -38,9 +38,26 @@ BINOPS = {"+": "SumPrior", "*": "MultiplePrior", "/": "DivisionPrior", "//": "Fl
 UNOPS = {"neg": "-%s", "abs": "abs(%s)"}
 
 
+def _floats(x, depth=0):
+    if isinstance(x, bool) or depth > 6:
+        return
+    if isinstance(x, (int, float)):
+        yield float(x)
+    elif isinstance(x, (tuple, list)):
+        for y in x:
+            yield from _floats(y, depth + 1)
+    elif hasattr(x, "__dict__"):
+        for k, y in x.__dict__.items():
+            if k != "id":
+                yield from _floats(y, depth + 1)
+
+
 class Analysis(af.Analysis):
+    """smooth likelihood that depends on every parameter (values differ between samples)"""
+
     def log_likelihood_function(self, instance):
-        return -1.0
+        import math
+        return -sum(math.tanh(v * 1e-2) ** 2 + 1e-3 * math.sin(v) for v in _floats(instance))
 
 
 # ---------------------------------------------------------------------------------------
@@ -152,6 +169,7 @@ def make_search(s, opts):
     cls = SEARCHES[s["cls"]]
     kw = dict(s.get("settings", {}))
     kw = {k: (unhex(v["v"]) if isinstance(v, dict) else v) for k, v in kw.items()}
+    kw.update(s.get("run", {}))          # non-identifying run settings (e.g. maxcall of a real fit)
     for k in ("name", "path_prefix", "unique_tag", "number_of_cores", "iterations_per_update"):
         if s.get(k) is not None:
             kw[k] = s[k]
@@ -270,21 +288,26 @@ def run_fit(spec, want_abs):
         model = copy.deepcopy(model)
         search_for_id = search
     if route == "reload":
+        model2 = search2 = None
         try:
             model2 = from_dict(json.loads(json.dumps(to_dict(model))))
-            search2 = from_dict(json.loads(json.dumps(to_dict(search))))
+            if want_abs:
+                out["abs_model"] = abs_obj(model2, {})
         except BaseException as e:  # noqa
-            out["raised"] = exc_name(e)
-            out["msg"] = str(e)[:200]
-            out["stage"] = "reload"
+            out["model_raised"] = exc_name(e)
+            out["raised"], out["msg"], out["stage"] = exc_name(e), str(e)[:200], "reload"
+        try:
+            search2 = from_dict(json.loads(json.dumps(to_dict(search))))
+            if want_abs:
+                out["abs_search"] = abs_obj(search2, {})
+        except BaseException as e:  # noqa
+            out["search_raised"] = exc_name(e)
+            out["raised"], out["msg"], out["stage"] = exc_name(e), str(e)[:200], "reload"
+        if "raised" in out:
             return out
         out["prior_count"] = [getattr(model, "prior_count", None), getattr(model2, "prior_count", None)]
         out["reloaded_tag"] = search2.unique_tag
-        w = walk_observables([search2, model2] + ([spec["tag"]] if spec.get("tag") is not None else []))
-        out.update(w)
-        if want_abs:
-            out["abs_model"] = abs_obj(model2, {})
-            out["abs_search"] = abs_obj(search2, {})
+        out.update(walk_observables([search2, model2] + ([spec["tag"]] if spec.get("tag") is not None else [])))
         return out
     if route in ("files", "fit"):
         search.paths.remove_files = False
